@@ -160,7 +160,8 @@ pub fn install_panic_hook() {
 				// keep only the path below the crate roots so signatures are stable
 				let f = l.file();
 				let f = f.rsplit_once("/crates/").map(|(_, r)| r).unwrap_or(f);
-				let f = f.rsplit_once("/registry/src/").map(|(_, r)| r).unwrap_or(f);
+				// registry sources: drop the index directory name too
+				let f = f.rsplit_once("/registry/src/").map(|(_, r)| r.split_once('/').map(|(_, r)| r).unwrap_or(r)).unwrap_or(f);
 				format!("{}:{}", f, l.line())
 			})
 			.unwrap_or_else(|| "?".into());
